@@ -320,10 +320,13 @@ def closure(used, prelude):
     return out
 
 
-def random_program(rng, prelude, sig, max_nodes=40, tuples=True, match=False):
+def random_program(rng, prelude, sig, max_nodes=40, tuples=True, match=False, records=None):
     g = Gen(rng, prelude, sig, max_nodes)
     g.tuples = tuples
     g.match = match
+    # record-valued temporaries are aggregates like tuples: off where tuple temporaries are off (corpora that compare
+    # the WASM runtime word for word: pinned C01 findings about aggregate temporaries)
+    g.records = tuples if records is None else records
     fns = {}
     nuser = rng.randint(0, 2)
     for i in range(nuser):
